@@ -263,6 +263,13 @@ func (t *H11Tracer) lazy(st *tstate, fr *frame, v ssa.Value, d int) *Sym {
 				if s := t.writeOnce(st, fr, al, d); s != nil {
 					return s
 				}
+				if fs := h11LiteralFields(al); len(fs) > 0 && al.Parent() == fr.fn {
+					ks := &Sym{Kind: KStruct, Args: []*Sym{nil}, Fields: map[int]*Sym{}}
+					for idx, fv := range fs {
+						ks.Fields[idx] = sub(fv)
+					}
+					return ks
+				}
 			}
 			return &Sym{Kind: KOpaque, V: v}
 		case token.NOT:
@@ -299,6 +306,10 @@ func (t *H11Tracer) writeOnce(st *tstate, fr *frame, al *ssa.Alloc, d int) *Sym 
 			return t.val(st, fr, v)
 		}
 		return t.lazy(st, fr, v, d+1)
+	case *ssa.MakeMap:
+		if h11StaticTable(v) != nil {
+			return &Sym{Kind: KOpaque, V: v}
+		}
 	}
 	return nil
 }
@@ -466,6 +477,33 @@ func (t *H11Tracer) instrs(st *tstate, fr *frame, b *ssa.BasicBlock, i int, k tc
 			set(s)
 		case *ssa.Lookup:
 			m, key := op(x.X), op(x.Index)
+			// dispatch table: a map of function values (or of records holding function values) that was built on this
+			// path: the lookup is forked over the entries stored on the path (plus the "no such key" outcome), so that
+			// the handlers are stepped into like the arms of a switch
+			if alts := t.tableEntries(st, fr, m, x); len(alts) > 0 {
+				bb, ii := b, i
+				for n, alt := range append(alts, nil) {
+					st2 := st
+					if n < len(alts) {
+						st2 = st.clone()
+					}
+					var s *Sym
+					switch {
+					case alt != nil && x.CommaOk:
+						s = &Sym{Kind: KTuple, Args: []*Sym{alt, constSym(constant.MakeBool(true), types.Typ[types.Bool])}}
+					case alt != nil:
+						s = alt
+					case x.CommaOk:
+						s = &Sym{Kind: KTuple, Args: []*Sym{{Kind: KOpaque, V: x, ID: t.id()}, constSym(constant.MakeBool(false), types.Typ[types.Bool])}}
+					default:
+						s = &Sym{Kind: KOpaque, V: x, ID: t.id()}
+					}
+					st2.env[envKey{fr.id, x}] = s
+					t.emit(st2, fr, Ev{Kind: "lookup", In: in, Args: []*Sym{m, key}, Res: s})
+					t.instrs(st2, fr, bb, ii+1, k)
+				}
+				return
+			}
 			s := &Sym{Kind: KOpaque, V: x, ID: t.id()}
 			set(s)
 			t.emit(st, fr, Ev{Kind: "lookup", In: in, Args: []*Sym{m, key}, Res: s})
@@ -668,7 +706,8 @@ func (t *H11Tracer) invoke(st *tstate, fr *frame, in ssa.Instruction, c *ssa.Cal
 	if callee != nil && name == "" {
 		name = FuncName(callee)
 	}
-	inl := callee != nil && len(callee.Blocks) > 0 && fr.depth < t.MaxDepth && t.Inline(callee)
+	inl := callee != nil && len(callee.Blocks) > 0 && fr.depth < t.MaxDepth &&
+		(t.Inline(callee) || (strings.HasPrefix(callee.Synthetic, "bound method wrapper") && len(callee.FreeVars) == 1))
 	if inl {
 		for f := fr; f != nil; f = f.parent {
 			if f.fn == callee {
@@ -809,7 +848,7 @@ func (t *H11Tracer) sel(st *tstate, fr *frame, x *ssa.Select, b *ssa.BasicBlock,
 
 // neverNilTest: base is `x == nil` where x is the result of a call to a function whose result is never nil.
 func (t *H11Tracer) neverNilTest(base *Sym) bool {
-	if t.NeverNil == nil || base.Kind != KBin || base.Op != token.EQL || len(base.Args) != 2 {
+	if base.Kind != KBin || base.Op != token.EQL || len(base.Args) != 2 {
 		return false
 	}
 	var x *Sym
@@ -819,6 +858,13 @@ func (t *H11Tracer) neverNilTest(base *Sym) bool {
 	case base.Args[1].IsNil():
 		x = base.Args[0]
 	default:
+		return false
+	}
+	// a function literal / named function / bound method value is never nil (`if extra == nil` on a callback argument)
+	if x != nil && (x.Kind == KClosure || (x.Kind == KFunc && x.Fn != nil)) {
+		return true
+	}
+	if t.NeverNil == nil {
 		return false
 	}
 	idx := 0
@@ -834,4 +880,170 @@ func (t *H11Tracer) neverNilTest(base *Sym) bool {
 	}
 	callee := call.Call.StaticCallee()
 	return callee != nil && t.NeverNil(callee, idx)
+}
+
+// h11HasFunc: t is a function type or a (pointer to a) struct with a field of function type.
+func h11HasFunc(t types.Type) bool {
+	if t == nil {
+		return false
+	}
+	if p, ok := t.Underlying().(*types.Pointer); ok {
+		t = p.Elem()
+	}
+	switch u := t.Underlying().(type) {
+	case *types.Signature:
+		return true
+	case *types.Struct:
+		for i := 0; i < u.NumFields(); i++ {
+			if _, ok := u.Field(i).Type().Underlying().(*types.Signature); ok {
+				return true
+			}
+		}
+	}
+	return false
+}
+
+// tableEntries: the values stored on this path into the map m (created on this path) when it is a table of function
+// values; nil when m is not such a table or has no entry stored on the path.
+func (t *H11Tracer) tableEntries(st *tstate, fr *frame, m *Sym, x *ssa.Lookup) []*Sym {
+	if m != nil && m.Kind == KOpaque && m.ID == 0 {
+		if mm, ok := m.V.(*ssa.MakeMap); ok {
+			mt, isMap := mm.Type().Underlying().(*types.Map)
+			ups := h11StaticTable(mm)
+			if !isMap || !h11HasFunc(mt.Elem()) || len(ups) == 0 || len(ups) > 16 {
+				return nil
+			}
+			var owner *frame
+			for f := fr; f != nil; f = f.parent {
+				if f.fn == mm.Parent() {
+					owner = f
+				}
+			}
+			if owner == nil {
+				return nil
+			}
+			var out []*Sym
+			for _, u := range ups {
+				if sv, ok := st.env[envKey{owner.id, u.Value}]; ok {
+					out = append(out, sv)
+				} else {
+					out = append(out, t.lazy(st, owner, u.Value, 0))
+				}
+			}
+			return out
+		}
+	}
+	if m == nil || m.Kind != KFresh {
+		return nil
+	}
+	mt, ok := x.X.Type().Underlying().(*types.Map)
+	if !ok || !h11HasFunc(mt.Elem()) {
+		return nil
+	}
+	var out []*Sym
+	seen := map[string]int{}
+	for _, e := range st.evs {
+		if e.Kind != "mapupdate" || len(e.Args) != 3 || e.Args[0] == nil || e.Args[0].Kind != KFresh || e.Args[0].ID != m.ID || e.Args[2] == nil {
+			continue
+		}
+		kk := e.Args[1].Key()
+		if i, dup := seen[kk]; dup {
+			out[i] = e.Args[2]
+			continue
+		}
+		seen[kk] = len(out)
+		out = append(out, e.Args[2])
+	}
+	if len(out) > 16 {
+		return nil
+	}
+	return out
+}
+
+// h11StaticTable: the map created by mm is only filled by updates in its own function and otherwise only read
+// (looked up, ranged over, its length taken, stored once into a local that closures capture): its updates; nil otherwise.
+func h11StaticTable(mm *ssa.MakeMap) []*ssa.MapUpdate {
+	if mm.Referrers() == nil {
+		return nil
+	}
+	var ups []*ssa.MapUpdate
+	for _, ref := range *mm.Referrers() {
+		switch r := ref.(type) {
+		case *ssa.MapUpdate:
+			if r.Map != ssa.Value(mm) || r.Value == ssa.Value(mm) || r.Key == ssa.Value(mm) {
+				return nil
+			}
+			ups = append(ups, r)
+		case *ssa.Lookup, *ssa.Range, *ssa.DebugRef:
+		case *ssa.Store:
+			al, ok := r.Addr.(*ssa.Alloc)
+			if !ok || r.Val != ssa.Value(mm) || len(AllStores(al)) != 1 || AddrEscapes(al) {
+				return nil
+			}
+			// every load of the variable is only used for reading the map
+			if al.Referrers() != nil {
+				for _, ar := range *al.Referrers() {
+					if ld, isLd := ar.(*ssa.UnOp); isLd && ld.Referrers() != nil {
+						for _, lr := range *ld.Referrers() {
+							switch lr.(type) {
+							case *ssa.Lookup, *ssa.Range, *ssa.DebugRef:
+							default:
+								return nil
+							}
+						}
+					}
+				}
+			}
+		case *ssa.Call:
+			if b, ok := r.Call.Value.(*ssa.Builtin); !ok || b.Name() != "len" {
+				return nil
+			}
+		default:
+			return nil
+		}
+	}
+	return ups
+}
+
+// h11LiteralFields: al is a struct local that is only written field by field, each field at most once, in its own
+// function (a composite literal) and otherwise only loaded as a whole: the stored value per field index; nil otherwise.
+func h11LiteralFields(al *ssa.Alloc) map[int]ssa.Value {
+	if al.Referrers() == nil {
+		return nil
+	}
+	if _, ok := al.Type().Underlying().(*types.Pointer).Elem().Underlying().(*types.Struct); !ok {
+		return nil
+	}
+	out := map[int]ssa.Value{}
+	for _, ref := range *al.Referrers() {
+		switch r := ref.(type) {
+		case *ssa.FieldAddr:
+			if r.Referrers() == nil {
+				return nil
+			}
+			for _, fr := range *r.Referrers() {
+				switch f := fr.(type) {
+				case *ssa.Store:
+					if f.Addr != ssa.Value(r) {
+						return nil
+					}
+					if _, dup := out[r.Field]; dup {
+						return nil
+					}
+					out[r.Field] = f.Val
+				case *ssa.UnOp, *ssa.DebugRef:
+				default:
+					return nil
+				}
+			}
+		case *ssa.UnOp:
+			if r.Op != token.MUL {
+				return nil
+			}
+		case *ssa.DebugRef:
+		default:
+			return nil
+		}
+	}
+	return out
 }
